@@ -78,6 +78,11 @@ def world_candidates(sc):
                 c["network"]["constraints"] = keep
                 if "reconfig" in c:
                     c["reconfig"] = [r for r in c["reconfig"] if r["name"] in {k["name"] for k in keep}]
+                    for r_ in c["reconfig"]:
+                        if r_.get("coeffs") is not None:
+                            r_["coeffs"].pop(st["id"], None)
+                            if not r_["coeffs"]:
+                                r_.pop("coeffs")
                 yield c
     # 6. simplify components
     for i, st in enumerate(sc["network"]["stations"]):
